@@ -19,9 +19,14 @@ def chunks (d : Nat) : Nat → List Rat → List (List Rat)
   | 0, _ => []
   | fuel + 1, l => if l.isEmpty ∨ d = 0 then [] else l.take d :: chunks d fuel (l.drop d)
 
-def showVals (r : Except Err (List Val)) : String :=
+/-- focal list, then the stacked p-box (or the error `stacking` raises) -/
+def showVals (pv : List Rat) (r : Except Err (List Val)) : String :=
   match r with
-  | .ok vs => s!"ok {vs.length} {showList (vs.flatMap (fun v => [v.lo, v.hi]))}"
+  | .ok vs =>
+    let st := match stackOut pv vs with
+      | .ok P => s!"pbox {showList P.left} {showList P.right}"
+      | .error e => s!"stackerr {e}"
+    s!"ok {vs.length} {showList (vs.flatMap (fun v => [v.lo, v.hi]))} {st}"
   | .error e => s!"err {e}"
 
 def handle : List String → String
@@ -33,13 +38,13 @@ def handle : List String → String
       let s := parseStrategy strat
       if mode = "slice" then
         match missing t (queriesMix φ e pv vars (levelTuples lv vars.length) s style nsub) with
-        | [] => showVals (slicing φ e pv vars lv s style nsub)
+        | [] => showVals pv (slicing φ e pv vars lv s style nsub)
         | qs => showNeed qs
       else if mode = "imc" then
         let levels := chunks vars.length (lv.length + 1) lv
         if vars.length = 0 ∨ levels.length * vars.length ≠ lv.length then "bad-op" else
         match missing t (queriesMix φ e pv vars levels s style nsub) with
-        | [] => showVals (imc φ e pv vars levels s style nsub)
+        | [] => showVals pv (imc φ e pv vars levels s style nsub)
         | qs => showNeed qs
       else "bad-op"
     | _, _, _, _, _, _, _ => "bad-op"
